@@ -8,7 +8,8 @@ EXPLANATION = (
     "histories: every cached accessor of CgroupContext computes its field only while the per-tick cache "
     "slot is empty, stores the result in that slot and returns the slot (so a value cannot change within "
     "a tick); CgroupContext::refresh archives exactly the three temporal inputs, then clears the cache, "
-    "then reports validity of the held directory fd; the temporal getters combine only the archive and "
+    "then reports validity of the held directory fd; the new archive reads nothing of the old one (one-"
+    "tick memory) and copies the three cache slots verbatim; the temporal getters combine only the archive and "
     "current accessors; OomdContext::refresh drops exactly the contexts whose refresh() is false without "
     "touching an invalidated iterator; the main loop refreshes the context on every tick path; a new "
     "context starts with an empty archive and takes its identity from the inode of its own held fd; all "
@@ -86,6 +87,17 @@ def run(ctx):
         want = ["this->data_->average_usage", "this->data_->io_cost_cumulative", "this->data_->pg_scan_cumulative"]
         ctx.check(all(x in t for x in want) and t.index(want[0]) < t.index(want[1]) < t.index(want[2]), "refresh:archives-the-three-temporal-inputs", "value-shape", rf.loc(w),
                   "archive = {average_usage, io_cost_cumulative, pg_scan_cumulative} of the ending tick", "archive is built from " + t[:160])
+        # one-tick memory: the new archive is a function of the ending tick's cache only (not of the old archive)
+        old_reads = [x for x in rf.walk(write_rhs(rf, w)) if rf.nodes[x]["k"] == "member" and rf.nodes[x].get("qname") == "Oomd::CgroupContext::archive_"]
+        ctx.check(not old_reads, "refresh:archive-has-one-tick-memory", "field-read", rf.loc(old_reads[0]) if old_reads else rf.loc(w),
+                  "the new archive does not depend on the old one: rates are deltas over exactly one tick",
+                  "the new archive is computed from the previous archive: a value that was not sampled in the ending tick keeps an older baseline, "
+                  "so io-cost / pgscan rates can span several ticks")
+        il = rf.nodes[rf.strip(write_rhs(rf, w))]
+        if il["k"] == "initlist":
+            got = [rf.text(k).replace("->->", "->") for k in il.get("kids", [])]
+            ctx.check(got == want, "refresh:archive-fields-copied-verbatim", "value-shape", rf.loc(w), "each archive field is the cache slot of the same name, unmodified",
+                      "archive fields are " + str(got)[:200])
     # designated initialiser order matches the struct
     ac = P.classes.get("Oomd::CgroupContext::CgroupArchivedData", {})
     names = [x["name"] for x in ac.get("fields", [])]
